@@ -25,7 +25,7 @@ RULE = (
     "pair of distinct objects; distinct = distinct (family fingerprint, i, j)"
 )
 ASSUMPTIONS = ["origins are produced by the library's constructors / merge_origins", "content equality itself is C01's subject: frozenset order and separator re-splits are not generated here"]
-MUST_SEE = ["one_origin_diff_depth_ge2", "equal_pairs_distinct_objects", "triples", "confusable_origin_pairs", "serial_families", "non_node_comparisons", "hash_rechecks", "shared_subtrees", "shared_vs_unshared_families"]
+MUST_SEE = ["permissive_non_node_comparisons", "one_origin_diff_depth_ge2", "equal_pairs_distinct_objects", "triples", "confusable_origin_pairs", "serial_families", "non_node_comparisons", "hash_rechecks", "shared_subtrees", "shared_vs_unshared_families"]
 CONFIG = {
     "quick": {"shards": 16, "families": 500, "watchdog_s": 300},
     "thorough": {"shards": 32, "families": 500, "watchdog_s": 3000},
@@ -184,6 +184,21 @@ def run_shard(ctx):
             ctx.count("non_node_comparisons")
             if (r == other) is not False or (other == r) is not False or (r != other) is not True:
                 ctx.violation("eq-non-node", "comparison with a non-node is not False", {"other": repr(other)})
+        # a non-node whose own __eq__ says yes to everything: the node is the left operand, its answer stands
+        class _Any:
+            def __eq__(self, other):
+                return True
+
+            def __ne__(self, other):
+                return False
+
+            __hash__ = None
+
+        for other in (_Any(),):
+            ctx.count("permissive_non_node_comparisons")
+            ctx.evaluations += 1
+            if (r == other) is not False or (r != other) is not True:
+                ctx.violation("eq-non-node", "node == <non-node that compares equal to everything> is not False", {"other": "object whose __eq__ always returns True"})
     # sibling / subclass comparisons with identical field values
     a = U.cls[f"{P}Leaf"](v=3, s="q")
     b = U.cls[f"{P}Leaf2"](v=3, s="q")
